@@ -101,6 +101,7 @@ def _load_neutron():
     from . import nsf
     nsf.init(elements)
 core.delayed_load(['neutron'], _load_neutron, isotope=True)
+core.delayed_load(['nuclear_spin'], _load_neutron, element=False, isotope=True)
 
 def _load_neutron_activation():
     """
